@@ -207,6 +207,10 @@ ssize_t net_recv(int fd, void *buf, size_t len);
 int   net_is_simfd(int fd);
 void  net_parse_records(Pipe *p);
 
+void arena_begin(void);
+void arena_end(void);
+void *persistent_realloc(void *p, size_t n);   /* for buffers that outlive a run */
+
 /* libc originals */
 ssize_t __real_send(int, const void *, size_t, int);
 ssize_t __real_recv(int, void *, size_t, int);
